@@ -173,7 +173,41 @@ func (v View) GenSpanRanges(r *rand.Rand, k int) [][][2]uint32 {
 
 // GenConf draws a valid configuration: 1–5 pools, pairwise disjoint as address sets, node subnets shared between
 // pools, /32 node subnets, pools sharing one pod subnet (same gateway) with disjoint ranges, boundary addresses.
-func GenConf(r *rand.Rand) Conf {
+// withEmptyPools adds 1–2 pools with an EMPTY `ips` list (valid: they can neither hold nor serve an address) whose gateways
+// sort before, between or after the others.
+func withEmptyPools(r *rand.Rand, c Conf) Conf {
+	if r.Intn(3) != 0 {
+		return c
+	}
+	n := 1 + r.Intn(2)
+	for i := 0; i < n; i++ {
+		var base uint32
+		switch r.Intn(3) {
+		case 0:
+			base = 1<<24 | uint32(r.Intn(200))<<8 // 1.0.x.0/24: before everything
+		case 1:
+			base = 10<<24 | 15<<16 | uint32(r.Intn(200))<<8 // between the 10.0/10.9 and the 10.20/10.49/… subnets
+		default:
+			base = 250<<24 | uint32(r.Intn(200))<<8 // after everything but 255.255.255.0
+		}
+		dup := false
+		for _, p := range c {
+			if p.Gateway == IPStr(base+1) {
+				dup = true
+			}
+		}
+		if dup {
+			continue
+		}
+		c = append(c, PoolConf{NodeSubnets: pickSubnets(r), IPs: []string{}, Subnet: IPStr(base) + "/24", Gateway: IPStr(base + 1)})
+	}
+	r.Shuffle(len(c), func(i, j int) { c[i], c[j] = c[j], c[i] })
+	return c
+}
+
+func GenConf(r *rand.Rand) Conf { return withEmptyPools(r, genConf(r)) }
+
+func genConf(r *rand.Rand) Conf {
 	if r.Intn(6) == 0 {
 		return GenSharedConf(r)
 	}
@@ -503,8 +537,10 @@ func GenOp(r *rand.Rand, v View, faultPct int) Op {
 		}
 	case x < 97:
 		op = Op{Kind: "deliver", Plan: NoPlan()}
-	case x < 99:
+	case x < 98:
 		op = Op{Kind: "isync", Plan: NoPlan()}
+	case x < 99:
+		op = Op{Kind: "apisync", Plan: NoPlan()}
 	default:
 		op = Op{Kind: "restart", Plan: NoPlan()}
 	}
